@@ -22,7 +22,7 @@ def corpus():
         "run prop=C04 mode=users conc=6 dur=300 body=20 expectfull=1",
         "run prop=C04 mode=users conc=4 dur=300 body=20 expectfull=1 combine=1",           # handles reach the components of a combined scenario
         "run prop=C04 mode=constant rate=12/50ms dur=300 conc=3 body=100 expectfull=1 combine=1",
-    ]
+    ] + __import__("vlib.props._plan", fromlist=["x"]).cli_corpus_for("C04")
 
 
 def generate(rng, tier):
@@ -48,6 +48,15 @@ def generate(rng, tier):
             out[-1] += " combine=1"
     out.append("pool.handles %d %d" % (rng.choice([2, 3]), rng.choice([1, 2, 4])))
     return out
+
+
+def compare(rec):
+    if rec["case"].startswith("cli "):
+        from . import _plan
+        return _plan.cli_compare(rec)
+    if rec["model"] == "-":
+        return None
+    return None if rec["impl"] == rec["model"] else "model=%s impl=%s" % (rec["model"], rec["impl"])
 
 
 def nontrivial_key(rec):
